@@ -111,10 +111,11 @@ const (
 	opFlush
 	opSync
 	opMarshal
+	opPwrite
 	opCount
 )
 
-var opNames = []string{"open", "write", "read", "seek", "trunc", "size", "close", "mkdir", "rename", "remove", "removeall", "stat", "readdir", "flush", "sync", "marshal"}
+var opNames = []string{"open", "write", "read", "seek", "trunc", "size", "close", "mkdir", "rename", "remove", "removeall", "stat", "readdir", "flush", "sync", "marshal", "pwrite"}
 
 type fsop struct {
 	kind  int
@@ -169,6 +170,11 @@ func mkNamespace(odd bool, prefix string) namespace {
 	return ns
 }
 
+// hotFileProfile (set per run by a scenario) concentrates the workload on ONE file opened
+// through several handles: sequential reads through one handle while others overwrite
+// the middle of already flushed data is what cached segment pointers must survive.
+var hotFileProfile bool
+
 // genOps draws a workload on the root goroutine. 0 is always the mildest choice.
 func genOps(w *vsim.World, label string, ns namespace, mean, blk int, withSaves bool, shared ...bool) []fsop {
 	sharedDirs := len(shared) > 0 && shared[0]
@@ -177,19 +183,35 @@ func genOps(w *vsim.World, label string, ns namespace, mean, blk int, withSaves 
 	for len(ops) < 400 && w.Choose(label+"-more", mean+1) != 0 {
 		o := fsop{idx: len(ops)}
 		// weighted kinds: writes/reads/opens dominate
-		kinds := []int{opWrite, opOpen, opRead, opWrite, opSeek, opOpen, opTrunc, opSize, opClose, opMkdir, opRename, opRemove, opRemoveAll, opStat, opReaddir, opRead, opWrite}
+		kinds := []int{opWrite, opOpen, opRead, opWrite, opSeek, opOpen, opTrunc, opSize, opClose, opMkdir, opRename, opRemove, opRemoveAll, opStat, opReaddir, opRead, opWrite, opPwrite, opRead, opPwrite}
 		if withSaves {
 			kinds = append(kinds, opFlush, opMarshal, opSync, opFlush)
 		}
+		if hotFileProfile && !sharedDirs {
+			kinds = []int{opRead, opPwrite, opRead, opWrite, opPwrite, opRead, opOpen, opSeek, opTrunc, opFlush, opRead, opPwrite, opSize, opFlush, opOpen}
+			if withSaves {
+				kinds = append(kinds, opMarshal)
+			}
+		}
 		if sharedDirs {
 			// workers of C13 share the directories: only file-level operations
-			kinds = []int{opWrite, opOpen, opRead, opWrite, opSeek, opOpen, opTrunc, opSize, opClose, opRename, opRemove, opStat, opReaddir, opRead, opWrite, opWrite}
+			kinds = []int{opWrite, opOpen, opRead, opWrite, opSeek, opOpen, opTrunc, opSize, opClose, opRename, opRemove, opStat, opReaddir, opRead, opWrite, opWrite, opPwrite, opRead}
 		}
 		o.kind = kinds[w.Choose(label+"-kind", len(kinds))]
 		o.slot = w.Choose(label+"-slot", 4)
 		switch o.kind {
 		case opOpen:
 			o.p1 = ns.files[w.Choose(label+"-path", len(ns.files))]
+			if hotFileProfile && !sharedDirs {
+				o.p1 = ns.files[0]
+				o.flags = os.O_RDWR | os.O_CREATE
+				break
+			}
+			if w.Choose(label+"-hot-file", 2) == 1 {
+				// half of the opens go to two "hot" files, so that several handles with
+				// independent offsets on ONE file (cached segment pointers!) are common
+				o.p1 = ns.files[w.Choose(label+"-hot", 2)]
+			}
 			acc := []int{os.O_RDWR, os.O_RDONLY, os.O_WRONLY}[w.Choose(label+"-acc", 3)]
 			o.flags = acc
 			if w.Choose(label+"-create", 4) != 3 {
@@ -210,6 +232,9 @@ func genOps(w *vsim.World, label string, ns namespace, mean, blk int, withSaves 
 			}
 		case opWrite:
 			o.n = w.Choose(label+"-wlen", 3*blk+2)
+		case opPwrite: // overwrite somewhere inside the existing data (seek + write)
+			o.n = 1 + w.Choose(label+"-wlen", 2*blk+1)
+			o.off = w.Choose(label+"-poff", 1<<16)
 		case opRead:
 			o.n = 1 + w.Choose(label+"-rlen", 3*blk+2)
 		case opSeek:
@@ -239,6 +264,9 @@ func genOps(w *vsim.World, label string, ns namespace, mean, blk int, withSaves 
 			o.p1 = append([]string{""}, ns.dirs...)[w.Choose(label+"-rdpath", len(ns.dirs)+1)]
 		case opFlush:
 			o.p1 = append([]string{""}, ns.dirs...)[w.Choose(label+"-fpath", len(ns.dirs)+1)]
+			if hotFileProfile && !sharedDirs {
+				o.p1 = ""
+			}
 			o.short = w.Choose(label+"-short", 2) == 1
 		}
 		ops = append(ops, o)
@@ -352,6 +380,44 @@ func (x *executor) checkSegments(f File) {
 	}
 }
 
+// probeSplit counts the situations behind cached-pointer bugs: a write that starts strictly
+// inside a stored (already flushed) segment, and whether another open handle on the same
+// file sits at or after that point.
+func (x *executor) probeSplit(h *handle, n int) {
+	fh, ok := h.f.(*filehandle)
+	if !ok || n == 0 || !h.writable {
+		return
+	}
+	fn, ok := fh.inode.(*filenode)
+	if !ok {
+		return
+	}
+	off := h.off
+	if h.app {
+		return
+	}
+	fn.RLock()
+	var pos int64
+	split := false
+	for _, seg := range fn.segments {
+		l := int64(seg.Len())
+		if _, stored := seg.(storedSegment); stored && off > pos && off < pos+l {
+			split = true
+		}
+		pos += l
+	}
+	fn.RUnlock()
+	if !split {
+		return
+	}
+	x.w.Probe("write-splits-stored-segment")
+	for _, o := range x.h {
+		if o != nil && o != h && o.node == h.node && o.readable && o.off >= off && o.off < int64(len(h.node.data)) {
+			x.w.Probe("write-splits-stored-segment-under-another-handle")
+		}
+	}
+}
+
 func (x *executor) run(ops []fsop) {
 	for _, o := range ops {
 		if x.w.Failed() {
@@ -430,6 +496,7 @@ func (x *executor) apply(o fsop) {
 			return // zero-length write beyond EOF (extend or not): not specified by the property
 		}
 		data := wdata(o.idx, o.n)
+		x.probeSplit(h, o.n)
 		c0 := x.stamp()
 		n, err := h.f.Write(data)
 		r0 := x.stamp()
@@ -503,6 +570,13 @@ func (x *executor) apply(o fsop) {
 			return
 		}
 		h.off += int64(got)
+	case opPwrite:
+		h := x.h[o.slot]
+		if h == nil || h.node.dir || !h.writable || h.app {
+			return
+		}
+		x.apply(fsop{kind: opSeek, slot: o.slot, flags: io.SeekStart, off: o.off % (len(h.node.data) + 1), idx: o.idx})
+		x.apply(fsop{kind: opWrite, slot: o.slot, n: o.n, idx: o.idx})
 	case opSeek:
 		h := x.h[o.slot]
 		if h == nil || h.node.dir {
